@@ -1256,17 +1256,20 @@ lemma(
     canaries={"identity": "swappair(a, b, k) == k"},
 )
 
-KERN = Dict(NAMEPAIR, REAL)
-_SWAPPED_KERN = "all(swappair(a, b, k) in {B} and {B}[swappair(a, b, k)] == {A}[k] for k in {A}) and all(swappair(a, b, k) in {A} for k in {B})"
+# a kerning dict seen as (key set, value map): the insertion order of the keys plays no role in the statement, and the engine's
+# well-formedness axioms for Dict key sequences only get in the solvers' way here
+KERNKEYS = Set(NAMEPAIR)
+KERNVALS = Map(NAMEPAIR, REAL)
+_SWAPPED_KERN = "all(swappair(a, b, k) in D{B} and V{B}[swappair(a, b, k)] == V{A}[k] for k in D{A}) and all(swappair(a, b, k) in D{A} for k in D{B})"
 
 lemma(
     "C19.lemma.involution.kerning",
     props=["C19"],
-    vars={"a": STR, "b": STR, "K0": KERN, "K1": KERN, "K2": KERN},
-    # K1 = K0 with every key conjugated (same values), K2 = K1 with every key conjugated
-    hyps=[_SWAPPED_KERN.format(A="K0", B="K1"), _SWAPPED_KERN.format(A="K1", B="K2")],
-    concl={"restored": "all(k in K2 and K2[k] == K0[k] for k in K0) and all(k in K0 for k in K2)"},
-    canaries={"unchanged-after-one": "all(k in K1 and K1[k] == K0[k] for k in K0)"},
+    vars={"a": STR, "b": STR, "D0": KERNKEYS, "V0": KERNVALS, "D1": KERNKEYS, "V1": KERNVALS, "D2": KERNKEYS, "V2": KERNVALS},
+    # (D1, V1) = (D0, V0) with every key conjugated (same values), (D2, V2) = (D1, V1) with every key conjugated
+    hyps=[_SWAPPED_KERN.format(A="0", B="1"), _SWAPPED_KERN.format(A="1", B="2")],
+    concl={"restored-values": "all(k in D2 and V2[k] == V0[k] for k in D0)", "restored-keys": "all(k in D0 for k in D2)"},
+    canaries={"unchanged-after-one": "all(k in D1 and V1[k] == V0[k] for k in D0)"},
 )
 
 _SWAPPED_LIST = "len({B}) == len({A}) and all({B}[i] == swapname(a, b, {A}[i]) for i in range(len({A})))"
